@@ -259,14 +259,14 @@ def _bindings(c, f, b, prov, g):
     ok_arr = arr_terms == {ARR}
     c.inst("R2.issuance-array", "issuance pseudo-inputs = [(amount, asset id), (inflation_keys, token id)] of the same input",
            ok_arr, "array terms %s" % sorted(arr_terms), f.where(), f.path)
-    GEN = "secp256k1_zkp::Generator::new_unblinded(arg2, issuance::AssetId::into_tag(elem(std::array::into_iter(ARR)).1))"
+    GEN = "secp256k1_zkp::Generator::new_unblinded(arg2, issuance::AssetId::into_tag(elem(ARR).1))"
 
     def norm(v):
         return v.replace(ARR, "ARR")
     dvals = sorted((norm(show_full(e["args"][1])), variant_of(b, e)) for e in pushes if e["args"][0] == domain and ISS in cond_desc(b, e["conds"]))
     ivals = sorted((norm(show_full(e["args"][1])), variant_of(b, e)) for e in pushes if e["args"][0] == inc and ISS in cond_desc(b, e["conds"]))
     want_d = sorted([(GEN, "Explicit"), (GEN, "Confidential")])
-    AMT = "elem(std::array::into_iter(ARR)).0"
+    AMT = "elem(ARR).0"
     want_i = sorted([("secp256k1_zkp::PedersenCommitment::new_unblinded(arg2, %s.0, %s)" % (AMT, GEN), "Explicit"),
                      ("%s.0" % AMT, "Confidential")])
     c.inst("R2.push", "domain <- unblinded generator of the issued asset/token (explicit amount)", (GEN, "Explicit") in dvals, "issuance domain pushes %s" % dvals, f.where(), f.path)
@@ -291,7 +291,7 @@ def show_full(t):
 
 def variant_of(b, e):
     for d, lab in cond_desc(b, e["conds"]):
-        if lab in ("Explicit", "Confidential", "Null") and "elem(std::array::into_iter" in d:
+        if lab in ("Explicit", "Confidential", "Null") and "elem(array{" in d:
             return lab
     return None
 
